@@ -180,7 +180,7 @@ func main() {
 	}
 
 	start := time.Now()
-	budget := time.Duration(run.Pick(70, 780)) * time.Second
+	budget := time.Duration(run.Pick(60, 780)) * time.Second
 	stats := map[string]bfsStats{}
 	bounds := map[string]interface{}{}
 	exhaustive := true
@@ -246,6 +246,7 @@ func main() {
 				rep.obsSet.Add(core.Hash(r.Obs))
 			}
 			growth[slot] = map[string]interface{}{"distinct_txs_sent": len(h), "first_violation_at": firstBad}
+			rep.samples.Add(poolCase{Pool: "ethTxPool", Cfg: c.Name, Mode: "step", Hist: h[:3], Note: "growth probe prefix"})
 		}
 		closeAll()
 	}
